@@ -182,3 +182,116 @@ void genC07(uint64_t seed, int tier, Scenario& sc) {
 vf::ClassRegistrar regC07({"C07", "C07", "session", genC07, runC07});
 
 } // namespace
+
+// ------------------------------------------------------------------------------------------
+// C07H: the same oracle over generated histories (no scheduler involved: plain seeded history generation of the
+// operations the search applies to ONE Position/Evaluate pair - moves, take-backs, null moves, position
+// assignment at arbitrary stack depth, evaluator reconnects, contempt changes, evaluation-cache flooding).
+// It complements the in-search monitor for history patterns that real searches reach only under rare schedules
+// (e.g. position assignment in the middle of a make/unmake stack after a helper result was adopted).
+#include "moveGen.hpp"
+namespace {
+
+void runC07H(const Scenario& sc, vf::Result& res) {
+    sess::selectNet(sc.knobStr("net", "random"));
+    Rng r(sc.seed, 3);
+    auto et = Evaluate::getEvalHashTables();
+    auto oet = Evaluate::getEvalHashTables();
+    Oracle o;
+    o.et = std::move(oet);
+    std::unique_ptr<Evaluate> ev(new Evaluate(*et));
+    pg::GenPos gp;
+    pg::anyPosition(r, gp);
+    Position pos(gp.pos);
+    ev->connectPosition(pos);
+    int contempt = 0;
+    struct Frame { Move m; UndoInfo ui; bool isNull; Square ep; int hmc; };
+    std::vector<Frame> stack;
+    std::vector<Position> earlier;
+    earlier.push_back(pos);
+    long checks = 0;
+    const int nOps = (int)sc.knobInt("ops", 200);
+    for (int i = 0; i < nOps && res.verdict == "ok"; i++) {
+        int k = (int)r.below(100);
+        if (k < 38) { // make a move
+            std::vector<Move> lm;
+            uci::legalMoves(pos, lm);
+            if (lm.empty() || stack.size() > 60) continue;
+            Frame f;
+            f.m = lm[r.below(lm.size())];
+            // prefer captures/promotions/castling now and then: more feature changes per move
+            for (int t = 0; t < 3; t++) { const Move& c = lm[r.below(lm.size())]; if (pos.getPiece(c.to()) != Piece::EMPTY || c.promoteTo() != Piece::EMPTY) { f.m = c; break; } }
+            f.isNull = false;
+            stack.push_back(f);
+            pos.makeMove(stack.back().m, stack.back().ui);
+            res.counters["op_make"]++;
+            if (r.chance(0.2)) earlier.push_back(pos);
+        } else if (k < 58) { // take back
+            if (stack.empty()) continue;
+            Frame& f = stack.back();
+            if (f.isNull) { pos.setEpSquare(f.ep); pos.setWhiteMove(!pos.isWhiteMove()); pos.setHalfMoveClock(f.hmc); }
+            else pos.unMakeMove(f.m, f.ui);
+            stack.pop_back();
+            res.counters["op_unmake"]++;
+        } else if (k < 64) { // null move as the search does it
+            if (MoveGen::inCheck(pos) || stack.size() > 60) continue;
+            Frame f;
+            f.isNull = true;
+            f.ep = pos.getEpSquare();
+            f.hmc = pos.getHalfMoveClock();
+            pos.setWhiteMove(!pos.isWhiteMove());
+            pos.setEpSquare(Square(-1));
+            pos.setHalfMoveClock(0);
+            stack.push_back(f);
+            res.counters["op_null_move"]++;
+        } else if (k < 72) { // position assignment at the current stack depth (HelperThreadResult / StopSearch paths)
+            Position src = earlier[r.below(earlier.size())];
+            if (r.chance(0.3)) { pg::GenPos g2; pg::anyPosition(r, g2); src = g2.pos; }
+            pos = src;
+            stack.clear(); // the undo information no longer applies
+            res.counters["op_assign"]++;
+            res.counters[stack.empty() ? "probe_assign" : "probe_assign"]++;
+        } else if (k < 76) { // a new evaluator object on the same tables (every Search constructs one)
+            ev.reset(new Evaluate(*et));
+            ev->connectPosition(pos);
+            ev->setWhiteContempt(contempt);
+            res.counters["op_reconnect"]++;
+        } else if (k < 80) {
+            contempt = r.chance(0.3) ? 0 : (int)r.range(-300, 300);
+            ev->setWhiteContempt(contempt);
+            res.counters["op_contempt"]++;
+        } else { // evaluate and compare
+            int got = ev->evalPos();
+            Position fresh = TextIO::readFEN(TextIO::toFEN(pos));
+            if ((++o.calls & 31) == 0) for (auto& e : o.et->evalHash) e = Evaluate::EvalHashTables::EvalHashType::value_type();
+            int want = freshEval(o, fresh, contempt);
+            checks++;
+            if (got != want) {
+                res.violate("C07", "history-eval-mismatch", "after " + std::to_string(i + 1) + " operations (stack depth " + std::to_string(stack.size()) + ") the evaluation is " +
+                            std::to_string(got) + " but a from-scratch evaluation gives " + std::to_string(want) + " for " + TextIO::toFEN(pos) + " contempt " + std::to_string(contempt));
+                break;
+            }
+            if (r.chance(0.1)) {
+                int v = freshEval(o, colourSwapped(fresh), -contempt);
+                if (v != want) res.violate("C07", "colour-asymmetry", "colour-swapped position evaluates to " + std::to_string(v) + " instead of " + std::to_string(want) + " for " + TextIO::toFEN(pos));
+            }
+        }
+    }
+    ev.reset();
+    res.counters["eval_checks"] = checks;
+    res.info["casehash"] = vf::hex64(vf::fnv1a(sc.toText()));
+    res.counters["nontrivial"] = checks > 3;
+}
+
+void genC07H(uint64_t seed, int tier, Scenario& sc) {
+    Rng r(seed, 1);
+    sc.cls = "C07H";
+    sc.seed = seed;
+    static const char* nets[] = {"material", "random", "random", "extreme"};
+    sc.setS("net", nets[r.below(4)]);
+    sc.set("ops", r.logRange(10, tier > 0 ? 3000 : 400));
+}
+
+vf::ClassRegistrar regC07H({"C07H", "C07", "unit", genC07H, runC07H});
+
+} // namespace
